@@ -35,3 +35,33 @@ def k10(ctx):
                 "distinct_nontrivial": len(set(x["impl"] for x in forms)),
                 "samples": [f"{x['req']} -> {x['impl']}" for x in forms[:3]]}
     return ctx.stage("k10", run)
+
+
+def k11(ctx):
+    """K11: the optimiser's decision on one user closure per eta shape vs the Lean decision etaOK"""
+    def run():
+        h = stages.harness_stage(ctx)
+        if not h["ok"]:
+            return {"ok": False, "broken": "harness build failed", "detail": h["output"]}
+        wd = ctx.workdir("k11")
+        rc, out = sh([h["bin"], "k11", "-dir", wd, "-repo", REPO], env=GOENV, timeout=1800)
+        if rc != 0:
+            return {"ok": False, "broken": "k11 harness failed", "detail": out[-3000:]}
+        r = json.load(open(os.path.join(wd, "k11.json")))
+        if r.get("error"):
+            return {"ok": False, "broken": "the compiler rejected the closure shapes", "detail": r["error"], "crash": True}
+        shapes = r["shapes"]
+        with open(os.path.join(wd, "req.txt"), "w") as f:
+            f.write("\n".join(x["req"] for x in shapes) + "\n")
+        rc, err = stages.drive(os.path.join(wd, "req.txt"), os.path.join(wd, "ans.txt"))
+        if rc != 0:
+            return {"ok": False, "broken": "lean driver failed", "detail": err}
+        ans = [l.rstrip("\n") for l in open(os.path.join(wd, "ans.txt"))]
+        dis = [{"shape": x["req"], "closure": x["code"], "impl": x["impl"], "model": a, "size": i}
+               for i, (x, a) in enumerate(zip(shapes, ans)) if x["impl"] != a]
+        parts = {"decision": {"n": len(shapes), "n_dis": len(dis), "dis": dis},
+                 "build": {"n": 1, "n_dis": 1 if r.get("build") else 0,
+                           "dis": [{"impl": r["build"], "reference": "the generated package builds", "size": 0}] if r.get("build") else []}}
+        return {"ok": all(p["n_dis"] == 0 for p in parts.values()), "parts": parts, "evaluations": len(shapes),
+                "distinct_nontrivial": len(shapes), "samples": [f"{x['code']} -> {x['impl']}" for x in shapes[:3]]}
+    return ctx.stage("k11", run)
